@@ -160,6 +160,7 @@ class Opts:
         self.mixed = True
         self.frozen = True
         self.nillable_empty_str = False   # "" in nillable str elements (DESIGN §5, triage item)
+        self.wrapper_odds = 5         # 1 in (n+1) list elements gets a wrapper
         self.json_safe = False        # keep the dictionary image unambiguous (C04): see json_kinds()
         self.nesting = True           # inner classes / nested enums
         self.hostile_text = False     # strings over all of Unicode, incl. code points XML 1.0 cannot carry (C03)
@@ -492,7 +493,7 @@ class _Builder:
                     if is_class:
                         # nil on a class that is itself nillable means "an empty instance", not None
                         self.classes[f["types"][0]["c"]]["meta"].pop("nillable", None)
-            if f["card"] == "list" and f["tokens"] != 2 and d(st.integers(0, 5)) == 0:
+            if f["card"] == "list" and f["tokens"] != 2 and d(st.integers(0, o.wrapper_odds)) == 0:
                 f["wrapper"] = self.pick_local(used)
             if not is_class and f["card"] == "opt" and not f["nillable"] and d(st.integers(0, 6)) == 0:
                 dv = self.default_for(f, "elem")
